@@ -1,5 +1,7 @@
 import FractopoModel.Basic.Wire
 import FractopoModel.Generated.ValidateStep
+import FractopoModel.Generated.CropHelpers
+import FractopoModel.Basic.Clip
 /-!
 # Runs the REGENERATED `Validation._validate` (translator validation, stream S09-generated) on scripted validators:
 geometries are natural numbers, the validator's answers are given on the wire.
@@ -18,6 +20,15 @@ def vstep (a : Args) : Option String := do
   let (g, errs, ign) := Gen.validate_step lsOnly isLs isEmpty false valid fix err (lst "major") geom (lst "errs") allowFix
   some s!"geom={g} errs={";".intercalate (errs.map enc)} ignore={showBool ign}"
 
+/-- `gempty areas=<rows> traces=<lines>`: the regenerated `is_empty_area` with exact geometry (a trace meets an area row iff a piece of
+positive length of it lies inside or one of its vertices is inside or on the boundary); the window reports every trace -/
+def gempty (a : Args) : Option String := do
+  let areas ← (a.get? "areas") >>= parseArea?
+  let traces ← (a.get? "traces") >>= parseLines?
+  let rows := areas.filter fun r => !r.isEmpty
+  let meets : Polyline → AreaRow → Bool := fun l row => !(clipLine l row).isEmpty || l.any (fun p => inAreaClosed row p)
+  some s!"empty={showBool (Gen.is_empty_area (fun (_ : AreaRow) => List.range traces.length) meets rows traces)}"
+
 def dispatch (line : String) : String :=
   let toks := (line.trimAscii.toString.splitOn " ").filter (· ≠ "")
   match toks with
@@ -27,6 +38,7 @@ def dispatch (line : String) : String :=
     let r : Option String :=
       match cmd with
       | "vstep" => vstep a
+      | "gempty" => gempty a
       | _ => some s!"error=unknown-command:{cmd}"
     r.getD "error=bad-arguments"
 
